@@ -18,7 +18,7 @@ CLAIMS = {
              '(any accepted prefix, EAGAIN, EPIPE, reset), integer clock. Sizes <=3 bytes per element, <=3 steps; kernel TCP outside.',
         ref='DESIGN.md §2 C01'),
     'C03': dict(
-        text='For 13 message templates and 9 chunk-stream layouts with symbolic header-value/body/trailing bytes, every single cut position '
+        text='For 14 message templates (one behind a PROXY-protocol line) and 9 chunk-stream layouts with symbolic header-value/body/trailing bytes, every single cut position '
              'and the byte-at-a-time feed (thorough: every pair of cuts) is an obligation: piecewise feed vs whole feed of the real '
              'HttpParser/ChunkParser must agree on all public attributes, complete exactly at the last byte, and keep trailing bytes as remainder.',
         note='Trusted: CrossHair + z3, models for bytes.split and int(bytes,16) validated against CPython on every run. Templates bound message '
